@@ -205,7 +205,7 @@ func init() {
 		ID:        "C17",
 		Level:     "exploration",
 		NeedsTerm: true,
-		Rule: "differential pairs of sessions from an identical state (one of 15 history-recalled buffers, cursor placed with 0 and l): session A d<motion>, session B y<motion> (a quarter of the pairs v<motion>d / v<motion>y), counts none/2/3, motions enumerated round-robin over h l w b e W B E 0 $ ^ % ge gE iw aw iW aW ia aa, dd/yy, f/F/t/T with 8 target characters, i/a with 10 delimiters (73 motions); argument keys are delivered in their own read; oracle: y leaves the buffer unchanged, register(A) == register(B), and the buffer after d with the register re-inserted at one place equals the original. " +
+		Rule: "differential pairs of sessions from an identical state (one of 18 history-recalled buffers, three of them multi-line with the cursor moved up to any line, cursor placed with 0 and l): session A d<motion>, session B y<motion> (a quarter of the pairs v<motion>d / v<motion>y), counts none/2/3, motions enumerated round-robin over h l w b e W B E 0 $ ^ % ge gE iw aw iW aW ia aa, dd/yy, f/F/t/T with 8 target characters, i/a with 10 delimiters (73 motions); argument keys are delivered in their own read; oracle: y leaves the buffer unchanged, register(A) == register(B), and the buffer after d with the register re-inserted at one place equals the original. " +
 			"distinct non-trivial = distinct (motion class, count?, visual?, buffer class, cursor class) tuples",
 		Assumptions: []string{"both sessions start from the same observed (buffer, cursor); pairs that do not are inconclusive",
 			"visual mode, f/F/t/T with a count: on the pinned tree the find command reads its argument key once per iteration, so the operator key that follows is consumed as the second argument and no operator runs; these pairs (about 2 %) are counted as inconclusive ('before/after snapshot missing', broken down by motion in the counters), the same motions without a count and in operator-pending mode are judged"},
